@@ -550,6 +550,7 @@ func graphemeRunTokens(run []byte, st *graphemeMergeState) string {
 			}
 			return len(cl.text) > 0
 		}
+		ext := true // the cluster consists of extenders only (no cell of its own by nature)
 		switch {
 		case only(func(r rune) bool { return unicode.Is(unicode.Mn, r) || unicode.Is(unicode.Me, r) }):
 			merge = true
@@ -558,10 +559,13 @@ func graphemeRunTokens(run []byte, st *graphemeMergeState) string {
 			st.forceNext = true
 		case only(func(r rune) bool { return (r >= 0xfe00 && r <= 0xfe0f) || (r >= 0xe0100 && r <= 0xe01ef) }):
 			merge = true
+		default:
+			ext = false
 		}
 		w := cl.width
-		if w == 0 && !merge {
-			// a zero-width cluster that is no extender (format characters such as U+00AD)
+		if w == 0 && !ext {
+			// a zero-width cluster that is no extender (format characters such as U+00AD), also
+			// when it follows a lone ZWJ
 			st.formatChar = true
 		}
 		if merge && w > 0 {
